@@ -1,7 +1,7 @@
 (* C04 - parameter values survive print -> parse.  Proved: decimal integers; single-line string literals
    (the form repr_string chooses for a string without line feed that is single-line exact).  The multi-line
    forms, fixed-point numbers and position marks are decided on the real code (harness/checks/c04.py). *)
-From ES Require Import Base Text.Dec Text.Str Text.StrProofs.
+From ES Require Import Base Text.Dec Text.Str Text.StrProofs Text.MStr Text.MStrProofs.
 
 Theorem C04_int_roundtrip : forall z, parse_Z (print_Z z) = Some z.
 Proof. exact parse_print_Z. Qed.
@@ -17,6 +17,20 @@ Proof.
   destruct Hq; subst; [apply single_roundtrip_dq | apply single_roundtrip_sq]; exact He.
 Qed.
 Print Assumptions C04_single_line_string_roundtrip.
+
+(* a string that is multi-line exact (no line separator other than LF, some line does not start with a blank): the
+   multi-line literal printed at any indentation depth, with either triple quote, is read back as the string by the
+   reader's dedent rules (str.splitlines semantics included).  That the lexer takes the printed text as one literal
+   needs the delimiter not to occur in the string; the lexer rule for multi-line literals is not modelled. *)
+Theorem C04_multi_line_string_roundtrip : forall q indent s,
+  multi_exact s = true -> read_multi (print_multi q indent s) = s.
+Proof. exact multi_roundtrip. Qed.
+Print Assumptions C04_multi_line_string_roundtrip.
+
+Example C04_multi_example :
+  let s := s2t "first"%string ++ [LF] ++ s2t "  indented"%string ++ [LF; LF] ++ s2t "last "%string ++ [LF] in
+  multi_exact s = true /\ read_multi (print_multi SQ 2 s) = s /\ length (split LF s) = 5.
+Proof. vm_compute. repeat split; reflexivity. Qed.
 
 (* non-vacuity: a string with both quotes, a backslash before an ordinary letter, blanks at both ends *)
 Example C04_string_example :
